@@ -244,7 +244,10 @@ def run_case(case, drv):
     VU.compare_data(res, impl, VU.model_dense(mp), "path")
     g = VU.graph_of(o)
     N = len(g["nodes"])
-    for col, r in enumerate(o.routes):
+    shape_ok = (not impl["A"]) or (len(impl["A"]) == N - 1 and all(len(row) == len(o.routes) for row in impl["A"]))
+    if not shape_ok:
+        res.fail("cover:shape", f"cover matrix is {len(impl['A'])} x {len(impl['A'][0]) if impl['A'] else 0} for {N - 1} customers and {len(o.routes)} routes")
+    for col, r in enumerate(o.routes if shape_ok else []):
         for k in range(1, N):
             want = 1 if k in r else 0
             if impl["A"] and impl["A"][k - 1][col] != want:
